@@ -5,6 +5,7 @@ package main
 
 import (
 	"fmt"
+	"unsafe"
 	"go/types"
 	"strings"
 
@@ -257,11 +258,13 @@ func (in *Interp) registerIntrinsics() {
 		return Tuple{in.tf.Const(64, uint64(args[1].(Str).Len())), Iface{}}
 	}
 
+	in.registerStrconvIntrinsics()
 	in.registerReflectIntrinsics()
 	in.registerRegexpIntrinsics()
 	in.registerProtoIntrinsics()
 	in.registerSymIntrinsics()
 	in.registerFmtIntrinsics()
+	in.registerWireIntrinsics()
 }
 
 // storeSync is a store performed by a synchronisation primitive (exempt from
@@ -346,6 +349,10 @@ func (in *Interp) unsafeBuiltin(name string, fn *ssa.Builtin, args []Value) (Val
 			if p == nil && n == 0 {
 				return Str{}, true
 			}
+			if p != nil {
+				// pointer to an element of a []Cell backing array: cells are contiguous
+				return strFromTerms(sliceBytes(Slice{A: unsafe.Slice(p, n)})), true
+			}
 		case nil:
 			if n == 0 {
 				return Str{}, true
@@ -395,3 +402,150 @@ func fnName(fn *ssa.Function) string {
 
 var _ = fmt.Sprintf
 var _ = strings.Contains
+
+// symDecimal renders a symbolic integer in base 10: forks on sign and on the
+// number of digits (bounded by the width), digits are bit-vector terms.
+func (in *Interp) symDecimal(t *Term, signed bool) Str {
+	f := in.tf
+	// narrow through extensions
+	for (t.Op == OZext && !signed) || (t.Op == OSext && signed) || (t.Op == OZext && signed) {
+		if t.Op == OZext && signed {
+			// zero-extended value is non-negative
+			signed = false
+		}
+		t = t.A
+	}
+	if t.IsConst() {
+		if signed {
+			return mkStr(fmt.Sprintf("%d", t.SVal()))
+		}
+		return mkStr(fmt.Sprintf("%d", t.C))
+	}
+	var out []*Term
+	u := t
+	if signed {
+		if in.branch(f.Cmp(OSlt, t, f.Const(t.W, 0))) {
+			out = append(out, f.Const(8, '-'))
+			u = f.Neg(t)
+		}
+	}
+	maxDigits := map[uint8]int{8: 3, 16: 5, 32: 10, 64: 20}[u.W]
+	k := maxDigits
+	pow := uint64(1)
+	for d := 1; d < maxDigits; d++ {
+		pow *= 10
+		if in.branch(f.Cmp(OUlt, u, f.Const(u.W, pow))) {
+			k = d
+			break
+		}
+	}
+	// digits, most significant first
+	p := uint64(1)
+	pows := make([]uint64, k)
+	for i := 0; i < k; i++ {
+		pows[k-1-i] = p
+		p *= 10
+	}
+	for i := 0; i < k; i++ {
+		q := u
+		if pows[i] != 1 {
+			q = f.Bin(OUDiv, u, f.Const(u.W, pows[i]))
+		}
+		dig := f.Bin(OURem, q, f.Const(u.W, 10))
+		out = append(out, f.Bin(OAdd, f.Conv(dig, 8, false), f.Const(8, '0')))
+	}
+	return strFromTerms(out)
+}
+
+func (in *Interp) registerStrconvIntrinsics() {
+	r := in.intrinsics
+	fallback := func(in *Interp, fr *frame, args []Value) Value {
+		return in.runSSA(fr.caller, fr.site, fr.fn, args, nil, false)
+	}
+	isBase10 := func(v Value) bool {
+		t := v.(*Term)
+		return t.IsConst() && t.C == 10
+	}
+	r["strconv.FormatInt"] = func(in *Interp, fr *frame, args []Value) Value {
+		if args[0].(*Term).IsConst() || !isBase10(args[1]) {
+			return fallback(in, fr, args)
+		}
+		return in.symDecimal(args[0].(*Term), true)
+	}
+	r["strconv.FormatUint"] = func(in *Interp, fr *frame, args []Value) Value {
+		if args[0].(*Term).IsConst() || !isBase10(args[1]) {
+			return fallback(in, fr, args)
+		}
+		return in.symDecimal(args[0].(*Term), false)
+	}
+	r["strconv.Itoa"] = func(in *Interp, fr *frame, args []Value) Value {
+		if args[0].(*Term).IsConst() {
+			return fallback(in, fr, args)
+		}
+		return in.symDecimal(args[0].(*Term), true)
+	}
+	appendDec := func(signed bool) intrinsicFn {
+		return func(in *Interp, fr *frame, args []Value) Value {
+			if args[1].(*Term).IsConst() || !isBase10(args[2]) {
+				return fallback(in, fr, args)
+			}
+			s := in.symDecimal(args[1].(*Term), signed)
+			add := make([]Value, s.Len())
+			for i := range add {
+				add[i] = s.At(in.tf, i)
+			}
+			return in.appendVals(args[0].(Slice), add)
+		}
+	}
+	r["strconv.AppendInt"] = appendDec(true)
+	r["strconv.AppendUint"] = appendDec(false)
+	// fmt's integer formatting: symbolic value, base 10, no width/precision/flags
+	r["(*fmt.fmt).fmtInteger"] = func(in *Interp, fr *frame, args []Value) Value {
+		u := args[1].(*Term)
+		if u.IsConst() {
+			return fallback(in, fr, args)
+		}
+		return in.fmtIntegerSym(fr, args, "fmt")
+	}
+	r["(*github.com/cockroachdb/redact/internal/rfmt.fmt).fmtInteger"] = func(in *Interp, fr *frame, args []Value) Value {
+		u := args[1].(*Term)
+		if u.IsConst() {
+			return fallback(in, fr, args)
+		}
+		return in.fmtIntegerSym(fr, args, "github.com/cockroachdb/redact/internal/rfmt")
+	}
+}
+
+// fmtIntegerSym handles (*fmt).fmtInteger(u, base, isSigned, verb, digits) for a
+// symbolic u in the plain %d / %v case and defers to the source otherwise.
+func (in *Interp) fmtIntegerSym(fr *frame, args []Value, pkg string) Value {
+	fcell := args[0].(*Cell)
+	st := fcell.V.(Struct)
+	ft := deref(fr.fn.Signature.Recv().Type())
+	flagsIdx := fieldIndex(ft, "fmtFlags")
+	flags := st[flagsIdx].V.(Struct)
+	fst := ft.Underlying().(*types.Struct).Field(flagsIdx).Type()
+	plain := true
+	for _, name := range []string{"widPresent", "precPresent", "plus", "space", "sharp", "zero", "minus"} {
+		if i := fieldIndex(fst, name); i >= 0 {
+			if t := flags[i].V.(*Term); !t.IsConst() || t.C != 0 {
+				plain = false
+			}
+		}
+	}
+	base := args[2].(*Term)
+	signed := args[3].(*Term)
+	if !plain || !base.IsConst() || base.C != 10 || !signed.IsConst() {
+		return in.runSSA(fr.caller, fr.site, fr.fn, args, nil, false)
+	}
+	s := in.symDecimal(args[1].(*Term), signed.C != 0)
+	// f.buf.write(bytes): buf is *buffer ([]byte)
+	bufIdx := fieldIndex(ft, "buf")
+	bufPtr := st[bufIdx].V.(*Cell)
+	add := make([]Value, s.Len())
+	for i := range add {
+		add[i] = s.At(in.tf, i)
+	}
+	in.store(bufPtr, in.appendVals(bufPtr.V.(Slice), add))
+	return nil
+}
